@@ -261,9 +261,18 @@ func init() {
 				return TupleV{}
 			}
 			s.pc = append(s.pc, c)
-			r := w.solver.Check(s.pc, false, QFeas)
+			if s.modelSatisfies(s.pc) {
+				s.modelOK = len(s.pc)
+				return TupleV{}
+			}
+			r := w.solver.Check(s.pc, true, QFeas)
 			if r.Status == "unsat" {
 				panic(pathEnd{"assume-infeasible"})
+			}
+			if r.Status == "sat" && r.Model != nil {
+				s.model, s.modelOK = r.Model, len(s.pc)
+			} else {
+				s.model, s.modelOK = nil, 0
 			}
 			return TupleV{}
 		},
